@@ -539,6 +539,43 @@ pub fn gen_tree(rng: &mut Rng, docs: &mut Docs) -> Tree {
             tree.insert(key, Node::File(docs.content()));
         }
     }
+    // Files that *other* tools give a meaning to - ignore lists, editor and formatter settings.
+    // To typstyle they are ineligible files like any other: they must stay untouched, and neither
+    // the set of files that is formatted nor the text that is produced may depend on them.
+    if rng.chance(0.1) {
+        let typ_files: Vec<String> = tree.iter().filter(|(k, n)| matches!(n, Node::File(_)) && k.ends_with(".typ")).map(|(k, _)| k.clone()).collect();
+        for _ in 0..rng.range(1, 2) {
+            let dirs = dirs_of(&tree);
+            let dir = if rng.chance(0.6) { base.clone() } else { rng.pick(&dirs).clone() };
+            let (name, text): (&str, String) = if rng.chance(0.5) {
+                let name = *rng.pick(&[".gitignore", ".ignore", ".typstyleignore", ".formatignore", ".prettierignore", ".fdignore"]);
+                let mut lines: Vec<String> = Vec::new();
+                for _ in 0..rng.range(1, 3) {
+                    lines.push(match rng.below(6) {
+                        0 => "*.typ".to_string(),
+                        1 => "*".to_string(),
+                        2 if !typ_files.is_empty() => file_name(rng.pick(&typ_files).as_str()).to_string(),
+                        3 if !typ_files.is_empty() => format!("/{}", rng.pick(&typ_files)),
+                        4 if !dirs.is_empty() => format!("{}/", file_name(rng.pick(&dirs).as_str())),
+                        _ => "**/*.typ".to_string(),
+                    });
+                }
+                (name, lines.join("\n") + "\n")
+            } else {
+                let name = *rng.pick(&["typstyle.toml", ".typstyle.toml", ".typstylerc", ".editorconfig", "typst.toml", ".typstyle.json"]);
+                let text = match name {
+                    ".editorconfig" => "root = true\n[*]\nindent_style = tab\nindent_size = 8\nmax_line_length = 30\nend_of_line = crlf\ninsert_final_newline = false\n[*.typ]\nindent_size = 7\nmax_line_length = 25\n".to_string(),
+                    ".typstyle.json" => "{\"column\": 33, \"tab_width\": 7, \"tab-width\": 7, \"reorder_import_items\": true, \"exclude\": [\"*.typ\"]}\n".to_string(),
+                    _ => "column = 33\nmax_width = 33\ntab_width = 7\ntab-width = 7\ntab_spaces = 7\nreorder_import_items = true\nreorder-import-items = true\nexclude = [\"*.typ\", \"**\"]\n[format]\ncolumn = 21\ntab_width = 5\n[tool.typstyle]\ncolumn = 21\n".to_string(),
+                };
+                (name, text)
+            };
+            let key = join(&dir, name);
+            if !tree.contains_key(&key) && matches!(tree.get(&dir), Some(Node::Dir) | None) {
+                tree.insert(key, Node::File(text.into()));
+            }
+        }
+    }
     tree
 }
 
